@@ -193,6 +193,17 @@ class PureAsyncDecorator(qcore.decorators.DecoratorBase):
         return self.task_cls(result, self.fn, args, kwargs, **self.kwargs)
 
 
+def _sync_call_in_asyncio_mode_message(fn):
+    # fn can itself be a decorator object (the function under @deduplicate() is the inner @asynq() decorator), which
+    # inspect.getsourcefile() rejects with TypeError: describe the function it finally wraps
+    fn = core_inspection.get_original_fn(fn)
+    try:
+        source = inspect.getsourcefile(fn)
+    except TypeError:
+        source = None
+    return f"asyncio mode does not support synchronous calls: {getattr(fn, '__name__', fn)} at {source}"
+
+
 class AsyncDecoratorBinder(qcore.decorators.DecoratorBinder):
     def asynq(self, *args, **kwargs):
         if self.instance is None:
@@ -225,13 +236,9 @@ class AsyncDecorator(PureAsyncDecorator):
     def __call__(self, *args, **kwargs):
         if is_asyncio_mode():
             if self.allow_sync_call:
-                logger.warning(
-                    f"asyncio mode does not support synchronous calls: {self.fn.__name__} at {inspect.getsourcefile(self.fn)}"
-                )
+                logger.warning(_sync_call_in_asyncio_mode_message(self.fn))
             else:
-                raise RuntimeError(
-                    f"asyncio mode does not support synchronous calls: {self.fn.__name__} at {inspect.getsourcefile(self.fn)}"
-                )
+                raise RuntimeError(_sync_call_in_asyncio_mode_message(self.fn))
         else:
             return self._call_pure(args, kwargs).value()
 
@@ -256,13 +263,9 @@ class AsyncAndSyncPairDecorator(AsyncDecorator):
     def __call__(self, *args, **kwargs):
         if is_asyncio_mode():
             if self.allow_sync_call:
-                logger.warning(
-                    f"asyncio mode does not support synchronous calls: {self.fn.__name__} at {inspect.getsourcefile(self.fn)}"
-                )
+                logger.warning(_sync_call_in_asyncio_mode_message(self.fn))
             else:
-                raise RuntimeError(
-                    f"asyncio mode does not support synchronous calls: {self.fn.__name__} at {inspect.getsourcefile(self.fn)}"
-                )
+                raise RuntimeError(_sync_call_in_asyncio_mode_message(self.fn))
         else:
             return self.sync_fn(*args, **kwargs)
 
